@@ -873,7 +873,13 @@ __guess_dtyp(struct strpd_s d)
 {
 	struct dt_d_s res = {DT_DUNK};
 
-	if (LIKELY(d.y > 0 && d.c <= 0 && !d.flags.c_wcnt_p && !d.flags.bizda)) {
+	if (LIKELY(d.y > 0 && !d.flags.bizda &&
+		   ((d.c <= 0 && !d.flags.c_wcnt_p) ||
+		    /* month and day are there, weeks are redundant */
+		    (d.m > 0 && d.d > 0 && !d.flags.d_dcnt_p) ||
+		    /* so is a lone week count next to a day of the year */
+		    (d.d > 0 && d.flags.d_dcnt_p &&
+		     !(d.flags.c_wcnt_p && d.w > 0))))) {
 		/* nearly all goes to ymd */
 		res.typ = DT_YMD;
 		res.ymd.y = d.y;
@@ -904,7 +910,7 @@ __guess_dtyp(struct strpd_s d)
 			}
 #endif	/* WITH_FAST_ARITH */
 		}
-	} else if (d.y > 0 && d.m <= 0 && !d.flags.bizda) {
+	} else if (d.y > 0 && (d.m <= 0 || d.flags.c_wcnt_p) && !d.flags.bizda) {
 		res.typ = DT_YWD;
 		res.ywd = __make_ywd_c(d.y, d.c, (dt_dow_t)d.w, d.flags.wk_cnt);
 	} else if (d.y > 0 && !d.flags.bizda) {
